@@ -139,6 +139,100 @@ def dominated_by(g, guard_site, use_site):
     return False
 
 
+def _nesting_conditions(body, x):
+    """branch blocks the block x is nested under: its direct control dependences, and - transitively - those of the
+    branches above whose *other* arm goes on normally (`if let Some(b) = bound { if n != 1 { refuse } }`: the refusal
+    is conditioned on both tests). A branch whose other arm only refuses or leaves (`lookup(..)?` before the test) is
+    an earlier exit, not a condition of this refusal, and ends the climb."""
+    from .meet import _refusing_blocks
+    cd = body.control_deps()
+    succ = body.succ()
+    refusing = None
+    out = set(cd.get(x, ()))
+    work = list(out)
+    seen = set(out)
+    while work:
+        c = work.pop()
+        for c2 in cd.get(c, ()):
+            if c2 in seen:
+                continue
+            seen.add(c2)
+            if refusing is None:
+                refusing = _refusing_blocks(body)
+            # arms of c2 that do not lead to c: does one of them go on to a normal return?
+            def reaches(start, goal, block=()):
+                st, sn = [start], set()
+                while st:
+                    y = st.pop()
+                    if y == goal:
+                        return True
+                    if y in sn or y in block:
+                        continue
+                    sn.add(y)
+                    st.extend(succ[y])
+                return False
+            others = [a for a in succ[c2] if not reaches(a, c, (c2,))]
+            goes_on = False
+            for a in others:
+                st, sn = [a], set()
+                while st and not goes_on:
+                    y = st.pop()
+                    if y in sn or y in refusing or body.blocks[y]["cleanup"]:
+                        continue
+                    sn.add(y)
+                    if body.blocks[y]["term"]["k"] == "return" or y == c2:
+                        goes_on = True
+                        break
+                    st.extend(succ[y])
+            if goes_on:
+                out.add(c2)
+                work.append(c2)
+    return out
+
+
+def _return_variant_conditions(g, conds, depth=2):
+    """for condition nodes data-derived from the return value of a crate function: the operands of the branches that
+    directly control an assignment of that function's return place."""
+    f = g.facts
+    rev = LG._rev(g)
+    out = set()
+    cur = set(conds)
+    for _ in range(depth):
+        helpers = set()
+        for c in cur:
+            if not (isinstance(c, tuple) and len(c) == 2 and isinstance(c[1], int)):
+                continue
+            seen, st = {c}, [c]
+            while st and len(seen) < 80:
+                n = st.pop()
+                for (a, e) in rev.get(n, ()):
+                    if e.kind != DATA or a in seen:
+                        continue
+                    seen.add(a)
+                    if isinstance(a, tuple) and len(a) == 2 and a[1] == 0 and a[0] in f.bodies and a[0] != c[0] and f.bodies[a[0]].kind != "Closure":
+                        helpers.add(a[0])
+                    elif isinstance(a, tuple) and len(a) == 2 and isinstance(a[1], int) and a[0] == c[0]:
+                        st.append(a)
+        nxt = set()
+        for h in helpers:
+            hb = f.bodies[h]
+            cd = hb.control_deps()
+            for i, blk in enumerate(hb.blocks):
+                writes = any(st_["dst"]["l"] == 0 for st_ in blk["stmts"]) or (blk["term"]["k"] == "call" and blk["term"]["dst"]["l"] == 0)
+                if not writes:
+                    continue
+                for cblk in cd.get(i, ()):
+                    t = hb.blocks[cblk]["term"]
+                    if t["k"] in ("switch", "assert") and t["op"]["k"] in ("copy", "move"):
+                        nxt.add((h, t["op"]["pl"]["l"]))
+        nxt -= out
+        out |= nxt
+        cur = nxt
+        if not nxt:
+            break
+    return out
+
+
 def check_row(rep, ctx, rule, key, anchor_body, ctx_adt, variants, request_locals, payload_callees=None, g=None,
               need_all=True):
     """variants: Error variant names (each must be present unless need_all is False: then one suffices).
@@ -174,12 +268,14 @@ def check_row(rep, ctx, rule, key, anchor_body, ctx_adt, variants, request_local
             # refusal inside a helper or closure) at the calls leading to it
             for (cb, cblks) in leads_to(g, (bid, blk)).items():
                 body = f.bodies[cb]
-                cd = body.control_deps()
                 for x in cblks:
-                    for c in cd.get(x, ()):
+                    for c in _nesting_conditions(body, x):
                         t = body.blocks[c]["term"]
                         if t["k"] in ("switch", "assert") and t["op"]["k"] in ("copy", "move"):
                             cs.add((cb, t["op"]["pl"]["l"]))
+            # a condition that tests which variant a crate helper returned (`match helper(..) { Err(_) => refuse }`)
+            # stands for the tests that decide, inside the helper, which value it returns
+            cs |= _return_variant_conditions(g, cs)
             if all(cs & rs for rs in req_sets):
                 dep.append((bid, blk))
         ok = bool(dep)
